@@ -10,4 +10,9 @@ CONSTANTS
   Video <- Vid3
   NoBtrt <- T3
   RecordHist = FALSE
+  FixBufResize = FALSE
+  FixCtrResize = FALSE
+  FixDropBound = FALSE
+  FixDeriveGuards = FALSE
+  FixLateTrack = FALSE
 INVARIANTS Listed
